@@ -292,6 +292,9 @@ def random(N, R, dtype=tn.float64, device=None):
     elif len(N)+1 != len(R) or R[0] != 1 or R[-1] != 1 or len(N) == 0:
         raise InvalidArguments('Check if N and R are right.')
 
+    if min(R) < 1:
+        raise InvalidArguments('Check if N and R are right.')
+
     cores = []
 
     for i in range(len(N)):
@@ -319,7 +322,7 @@ def randn(N, R, var=1.0, dtype=tn.float64, device=None):
         torchtt.TT: the result.
     """
 
-    if len(N) + 1 != len(R) or R[0] != 1 or R[-1] != 1:
+    if len(N) + 1 != len(R) or R[0] != 1 or R[-1] != 1 or min(R) < 1:
         raise InvalidArguments('Check if N and R are right.')
     d = len(N)
     v1 = var / np.prod(R)
